@@ -56,6 +56,18 @@ Classify(k, kind, got, F(_)) ==
       THEN PrintT(<<"KNOWN", k, kind, CHOOSE d \in DeviationSets : F(d) = got /\ \A d2 \in DeviationSets : F(d2) = got => Cardinality(d) <= Cardinality(d2)>>)
     ELSE PrintT(<<"MISMATCH", k, kind>>) /\ PrintT(<<"DIFF", k, DiffFields(F({}), got)>>)
 
+\* The model continues from zrnt's LOGGED state after every event.  A deviating zrnt may log a state that is not
+\* even well-formed (per-validator lists of different lengths); the specification's operators are not defined on
+\* such a state, so events that start from one are not judged (the deviation that produced it was reported at
+\* its own event).
+WellFormed(s) ==
+    /\ "validators" \in DOMAIN s
+    /\ Len(s.balances) = Len(s.validators)
+    /\ Len(s.block_roots) = SPHR /\ Len(s.state_roots) = SPHR /\ Len(s.randao) = EPHV /\ Len(s.slashings) = EPSV
+    /\ (s.fork # "phase0" =>
+           /\ Len(s.prev_part) = Len(s.validators) /\ Len(s.cur_part) = Len(s.validators)
+           /\ Len(s.inactivity) = Len(s.validators))
+
 Init == l = 0 /\ st = [none |-> TRUE]
 
 \* start of a history; when the genesis state was upgraded in place at slot 0 (fork epochs equal to 0) the
@@ -69,7 +81,8 @@ TraceInit(e, k) ==
 
 TraceSlots(e, k) ==
     /\ e.ev = "Slots"
-    /\ IF ProcessSlotsDefined(st, e.to)
+    /\ IF ~WellFormed(st) THEN PrintT(<<"NOTJUDGED", k, "Slots">>)
+       ELSE IF ProcessSlotsDefined(st, e.to)
          THEN Classify(k, "Slots", e.post, LAMBDA dv : ProcessSlotsD(st, e.to, e.oracle.slots, dv))
          ELSE PrintT(<<"MISMATCH", k, "Slots">>)
               /\ PrintT(<<"DIFF", k, "process_slots is undefined for this target slot", st.slot, e.to>>)
@@ -78,7 +91,8 @@ TraceSlots(e, k) ==
 \* common.ProcessSlots on a COPY of the live state (the history does not advance): judged like a Slots event
 TraceProbe(e, k) ==
     /\ e.ev = "Probe"
-    /\ IF ProcessSlotsDefined(st, e.to)
+    /\ IF ~WellFormed(st) THEN PrintT(<<"NOTJUDGED", k, "Slots">>)
+       ELSE IF ProcessSlotsDefined(st, e.to)
          THEN Classify(k, "Slots", e.post, LAMBDA dv : ProcessSlotsD(st, e.to, e.oracle.slots, dv))
          ELSE PrintT(<<"MISMATCH", k, "Slots">>)
               /\ PrintT(<<"DIFF", k, "process_slots is undefined for this target slot", st.slot, e.to>>)
@@ -96,7 +110,8 @@ TraceBlock(e, k) ==
     /\ LET Out(dv) == Outcome(StateTransitionD(st, e.blk, e.oracle, dv))
            got == IF e.accepted THEN [accepted |-> TRUE, post |-> e.post] ELSE [accepted |-> FALSE]
            spec == Out({})
-       IN IF spec = got
+       IN IF ~WellFormed(st) THEN PrintT(<<"NOTJUDGED", k, "Block">>)
+          ELSE IF spec = got
             THEN IF e.accepted /\ ~e.root_ok
                    THEN PrintT(<<"MISMATCH", k, "Block">>)
                         /\ PrintT(<<"DIFF", k, "accepted block whose declared state root is not the post-state root">>)
@@ -129,7 +144,8 @@ TraceNeg(e, k) ==
     /\ LET base == IF "pre" \in DOMAIN e THEN e.pre ELSE st
            r == StateTransition(base, e.blk, e.oracle)
            ok == ~IsBad(r)
-       IN IF "panic" \in DOMAIN e
+       IN IF ~WellFormed(base) THEN PrintT(<<"NOTJUDGED", k, "Neg">>)
+          ELSE IF "panic" \in DOMAIN e
             THEN PrintT(<<"MISMATCH", k, "Panic">>) /\ PrintT(<<"DIFF", k, e.variant, e.panic>>)
           ELSE IF ~ok /\ e.accepted
             THEN PrintT(<<"MISMATCH", k, "BlockInvalid">>)
@@ -153,9 +169,18 @@ TraceNeg(e, k) ==
           ELSE TRUE
     /\ st' = st
 
+\* zrnt panicked outside a recorded call, while the harness advanced a pre-state / computed a state root / derived
+\* the oracle with zrnt's own code on a history the model considers valid: always a deviation (the event carries
+\* the scenario, the slot of the last recorded event, the frame the panic was raised in and the stack).
+TraceCrash(e, k) ==
+    /\ e.ev = "Crash"
+    /\ PrintT(<<"MISMATCH", k, "Crash">>)
+    /\ PrintT(<<"DIFF", k, "zrnt panicked", e.scenario, e.after_slot, e.origin, e.under, e.panic>>)
+    /\ st' = st
+
 Next ==
     /\ l < Len(Trace)
-    /\ LET e == Trace[l + 1] IN TraceInit(e, l + 1) \/ TraceSlots(e, l + 1) \/ TraceProbe(e, l + 1) \/ TraceBlock(e, l + 1) \/ TraceNeg(e, l + 1)
+    /\ LET e == Trace[l + 1] IN TraceInit(e, l + 1) \/ TraceSlots(e, l + 1) \/ TraceProbe(e, l + 1) \/ TraceBlock(e, l + 1) \/ TraceNeg(e, l + 1) \/ TraceCrash(e, l + 1)
     /\ l' = l + 1
 
 Spec == Init /\ [][Next]_vars
